@@ -65,9 +65,16 @@ def gen_job(rng, kind=None):
         n = rng.randint(1, 4)
         nfr = rng.randint(2, 4)
         pts = [[rng.randint(10, 37), rng.randint(10, 37)] for _ in range(n)]
-        # keep blobs well separated
+        if n >= 2 and rng.random() < 0.4:
+            # a neighbour 11-12 px away: outside the separation (9) but inside the relocation background
+            # radius of the other one once it has moved a little
+            a = rng.choice([(11, 0), (0, 11), (8, 8), (-8, 8), (12, 0), (0, -12)])
+            q = [pts[0][0] + a[0], pts[0][1] + a[1]]
+            if 10 <= q[0] <= 37 and 10 <= q[1] <= 37:
+                pts[1] = q
+        # keep blobs separated (> separation + the largest relative motion per frame)
         pts = [p for i, p in enumerate(pts)
-               if all((p[0] - q[0]) ** 2 + (p[1] - q[1]) ** 2 >= 144 for q in pts[:i])]
+               if all((p[0] - q[0]) ** 2 + (p[1] - q[1]) ** 2 >= 121 for q in pts[:i])]
         frames = []
         for k in range(nfr):
             frames.append([list(p) for p in pts])
